@@ -142,6 +142,63 @@ def to_term(v):
     raise EncodingError("cannot turn %r into a term" % (v,))
 
 
+
+# ---- IEEE-754 mode: values that are z3 FloatingPoint terms are combined with the correctly rounded operations
+# (round-to-nearest-even), Python numbers met on the way are converted exactly (ints below 2**53, float constants)
+RM = z3.RNE()
+
+
+def is_fp(v):
+    return is_z3(v) and z3.is_fp(v)
+
+
+def fp_const(v, sort):
+    if is_fp(v):
+        return v
+    if isinstance(v, bool):
+        v = int(v)
+    if isinstance(v, Quot):
+        if isinstance(v.a, int) and isinstance(v.b, int):
+            return z3.FPVal(v.a / v.b, sort)              # int / int is correctly rounded in CPython
+        raise EncodingError("symbolic int quotient in floating-point arithmetic")
+    if isinstance(v, int):
+        if abs(v) >= 2 ** 53:
+            raise EncodingError("int too large for exact conversion")
+        return z3.FPVal(float(v), sort)
+    if isinstance(v, F):
+        if F(float(v)) != v:
+            raise EncodingError("constant %r is not a binary64 number" % (v,))
+        return z3.FPVal(float(v), sort)
+    if isinstance(v, float):
+        return z3.FPVal(v, sort)
+    raise EncodingError("cannot use %r in floating-point arithmetic" % (v,))
+
+
+def fp_sort_of(*vs):
+    for v in vs:
+        if is_fp(v):
+            return v.sort()
+    return None
+
+
+class Vec:
+    """model of a 1-d numpy float array: element-wise arithmetic, sequential sum (numpy's pairwise summation is the
+    plain left-to-right loop for fewer than 8 elements)"""
+
+    def __init__(self, items):
+        self.items = list(items)
+
+    def __len__(self):
+        return len(self.items)
+
+    def __iter__(self):
+        return iter(self.items)
+
+    def __getitem__(self, k):
+        r = self.items[k]
+        return Vec(r) if isinstance(k, slice) else r
+
+
 def is_real(v):
     return isinstance(v, (F, float)) or (is_z3(v) and z3.is_real(v))
 
@@ -367,6 +424,8 @@ class Interp:
             raise PyRaise(name)
         elif isinstance(s, ast.For):
             it = self.ev(ctx, env, s.iter)
+            if isinstance(it, Vec):
+                it = it.items
             if not isinstance(it, (list, tuple, range)):
                 raise EncodingError("for over non-concrete iterable")
             for x in it:
@@ -416,6 +475,12 @@ class Interp:
             return False
         if is_bool_term(v):
             return ctx.branch(v)
+        if is_fp(v):
+            return not ctx.branch(z3.fpIsZero(v))
+        if isinstance(v, Vec):
+            if len(v) != 1:
+                raise PyRaise("ValueError")
+            return self.truth(ctx, v.items[0])
         if isinstance(v, (int, F)):
             return v != 0
         if is_z3(v):
@@ -484,6 +549,14 @@ class Interp:
             raise PyRaise("AttributeError")
         if isinstance(o, list) and e.attr == "append":
             return ("append", o)
+        if isinstance(o, Vec):
+            if e.attr == "size":
+                return len(o)
+            if e.attr == "shape":
+                return (len(o),)
+            if e.attr in ("sum", "mean", "tolist", "dot", "var", "std", "copy", "astype"):
+                return ("pyfunc", lambda ctx_, *a, **k: vec_method(self, ctx_, o, e.attr, a, k))
+            raise EncodingError("array attribute %s" % e.attr)
         if isinstance(o, (Sci, Mant)) and e.attr in ("split", "replace"):
             return ("strmeth", o, e.attr)
         if isinstance(o, dict) and e.attr in ("items", "values", "keys"):
@@ -504,6 +577,10 @@ class Interp:
         if isinstance(e.op, ast.USub):
             if isinstance(v, SymReal):
                 return SymReal(-v.t, v.dec, -v.sign)
+            if isinstance(v, Vec):
+                return Vec([z3.fpNeg(x) if is_fp(x) else -x for x in v.items])
+            if is_fp(v):
+                return z3.fpNeg(v)
             return -v
         if isinstance(e.op, ast.Not):
             if is_bool_term(v):
@@ -542,6 +619,23 @@ class Interp:
         return self.binop(ctx, e.op, self.ev(ctx, env, e.left), self.ev(ctx, env, e.right))
 
     def power(self, ctx, base, ex):
+        if isinstance(base, Vec) or isinstance(ex, Vec):
+            return self.vec_binop(ctx, ast.Pow(), base, ex)
+        if is_fp(base):
+            # x ** 2 is modelled as the correctly rounded product x * x (numpy's square fast path is exactly
+            # that; C pow() is within 1 ulp of it), x ** 0.5 as the correctly rounded square root
+            if isinstance(ex, F) and ex.denominator == 1:
+                ex = int(ex)
+            if isinstance(ex, int) and not isinstance(ex, bool) and 1 <= ex <= 4:
+                out = base
+                for _ in range(ex - 1):
+                    out = z3.fpMul(RM, out, base)
+                return out
+            if isinstance(ex, F) and ex == F(1, 2):
+                if ctx.branch(z3.And(z3.fpIsNegative(base), z3.Not(z3.fpIsZero(base)))):
+                    raise PyRaise("ComplexResult")
+                return z3.fpSqrt(RM, base)
+            raise EncodingError("unsupported floating-point power")
         if isinstance(ex, F) and ex == F(1, 2):
             # v ** 0.5 over the reals: fresh s >= 0 with s*s == v (v >= 0 is a path fact)
             if base is INF:
@@ -568,7 +662,41 @@ class Interp:
             return out
         raise EncodingError("unsupported power")
 
+    def vec_binop(self, ctx, op, l, r):
+        n = len(l) if isinstance(l, Vec) else len(r)
+        if isinstance(l, Vec) and isinstance(r, Vec) and len(l) != len(r):
+            raise PyRaise("ValueError")
+        ls = l.items if isinstance(l, Vec) else [l] * n
+        rs = r.items if isinstance(r, Vec) else [r] * n
+        if isinstance(op, ast.Pow):
+            return Vec([self.power(ctx, a, b) for a, b in zip(ls, rs)])
+        return Vec([self.binop(ctx, op, a, b) for a, b in zip(ls, rs)])
+
+    def fp_binop(self, ctx, op, l, r):
+        sort = fp_sort_of(l, r)
+        a, b = fp_const(l, sort), fp_const(r, sort)
+        if isinstance(op, ast.Add):
+            return z3.fpAdd(RM, a, b)
+        if isinstance(op, ast.Sub):
+            return z3.fpSub(RM, a, b)
+        if isinstance(op, ast.Mult):
+            return z3.fpMul(RM, a, b)
+        if isinstance(op, ast.Div):
+            if is_fp(r):
+                if ctx.branch(z3.fpIsZero(b)):
+                    raise PyRaise("ZeroDivisionError")
+            elif num(r) == 0:
+                raise PyRaise("ZeroDivisionError")
+            return z3.fpDiv(RM, a, b)
+        raise EncodingError("unsupported floating-point operator %s" % type(op).__name__)
+
     def binop(self, ctx, op, l, r):
+        if isinstance(l, Vec) or isinstance(r, Vec):
+            return self.vec_binop(ctx, op, l, r)
+        if isinstance(op, ast.Pow):
+            return self.power(ctx, l, r)
+        if is_fp(l) or is_fp(r):
+            return self.fp_binop(ctx, op, l, r)
         if isinstance(op, ast.Div):
             if isinstance(l, SymReal):
                 # division by an exact power of ten shifts the decade
@@ -675,6 +803,11 @@ class Interp:
             if isinstance(op, ast.NotEq):
                 return l != r
             raise EncodingError("ordering on None/str")
+        if is_fp(l) or is_fp(r):
+            sort = fp_sort_of(l, r)
+            a, b = fp_const(l, sort), fp_const(r, sort)
+            return {ast.Eq: z3.fpEQ(a, b), ast.NotEq: z3.Not(z3.fpEQ(a, b)), ast.Lt: z3.fpLT(a, b),
+                    ast.LtE: z3.fpLEQ(a, b), ast.Gt: z3.fpGT(a, b), ast.GtE: z3.fpGEQ(a, b)}[type(op)]
         l, r = num(l), num(r)
         if not is_z3(l) and not is_z3(r):
             return {ast.Eq: l == r, ast.NotEq: l != r, ast.Lt: l < r, ast.LtE: l <= r,
@@ -712,7 +845,7 @@ class Interp:
                     return self.new(ctx, name, *args, **kwargs)
                 if name in self.defs:
                     return self.call_function(ctx, name, args, kwargs)
-                return BUILTINS[name](self, ctx, *args)
+                return BUILTINS[name](self, ctx, *args, **kwargs) if kwargs else BUILTINS[name](self, ctx, *args)
         raise EncodingError("call of %r" % (f,))
 
     def strmeth(self, o, meth, args):
@@ -825,7 +958,7 @@ def b_float(I, ctx, v):
         return SymReal(t if sci.sign > 0 else -t, 0, sci.sign)
     if isinstance(v, (int, F)):
         return F(v)
-    if isinstance(v, SymReal) or is_real(v):
+    if isinstance(v, SymReal) or is_real(v) or is_fp(v):
         return v
     raise EncodingError("float() of %r" % (v,))
 
@@ -846,6 +979,13 @@ def b_minmax(ismin):
     def f(I, ctx, *a):
         if len(a) == 1:
             a = tuple(a[0])
+        if any(is_fp(x) for x in a):
+            sort = fp_sort_of(*a)
+            out = fp_const(a[0], sort)
+            for x in a[1:]:
+                x = fp_const(x, sort)
+                out = z3.If(z3.fpLEQ(out, x), out, x) if ismin else z3.If(z3.fpGEQ(out, x), out, x)
+            return out
         out = num(a[0])
         for x in a[1:]:
             x = num(x)
@@ -861,6 +1001,8 @@ def b_minmax(ismin):
 def b_abs(I, ctx, v):
     if isinstance(v, SymReal):
         return SymReal(v.absterm(), v.dec, +1)
+    if is_fp(v):
+        return z3.fpAbs(v)
     v = num(v)
     if not is_z3(v):
         return abs(v)
@@ -902,6 +1044,58 @@ def b_len(I, ctx, v):
     return len(v)
 
 
+def seq_sum(I, ctx, items, start=0):
+    out = start
+    for i, x in enumerate(items):
+        # numpy starts its accumulator with the first element (0.0 + x is exact anyway)
+        out = x if (i == 0 and start == 0 and is_fp(x)) else I.binop(ctx, ast.Add(), out, x)
+    return out
+
+
+def vec_method(I, ctx, v, name, a, k):
+    if name == "sum":
+        if not v.items:
+            return F(0)
+        return seq_sum(I, ctx, v.items)
+    if name == "mean":
+        if not v.items:
+            raise EncodingError("mean of an empty array")
+        return I.binop(ctx, ast.Div(), seq_sum(I, ctx, v.items), len(v))
+    if name == "tolist":
+        return list(v.items)
+    if name in ("copy", "astype"):
+        return Vec(v.items)
+    if name == "dot":
+        (w,) = a
+        return seq_sum(I, ctx, [I.binop(ctx, ast.Mult(), x, y) for x, y in zip(v.items, w.items)])
+    if name in ("var", "std"):
+        # numpy: mean of squared deviations from the mean (two passes)
+        m = vec_method(I, ctx, v, "mean", (), {})
+        d = [I.binop(ctx, ast.Sub(), x, m) for x in v.items]
+        var = I.binop(ctx, ast.Div(), seq_sum(I, ctx, [I.binop(ctx, ast.Mult(), x, x) for x in d]),
+                      len(v) - int(k.get("ddof", 0)))
+        return var if name == "var" else I.power(ctx, var, F(1, 2))
+    raise EncodingError("array method %s" % name)
+
+
+def b_asarray(I, ctx, v, dtype=None, **k):
+    if isinstance(v, Vec):
+        return Vec(v.items)
+    if isinstance(v, (list, tuple)):
+        return Vec(v)
+    raise EncodingError("np.asarray of %r" % type(v).__name__)
+
+
+def b_np1(name):
+    def f(I, ctx, v, *a, **k):
+        if not isinstance(v, Vec):
+            v = b_asarray(I, ctx, v)
+        if name == "square":
+            return Vec([I.binop(ctx, ast.Mult(), x, x) for x in v.items])
+        return vec_method(I, ctx, v, name, a, k)
+    return f
+
+
 def b_range(I, ctx, *a):
     a = [ctx.pick(x) if is_z3(x) else x for x in a]
     return range(*a)
@@ -913,5 +1107,8 @@ BUILTINS = {
     "os.path.join": lambda I, ctx, *a: ("path",) + tuple(a),
     "float": b_float, "int": b_int, "min": b_minmax(True), "max": b_minmax(False), "abs": b_abs,
     "isinstance": b_isinstance, "divmod": b_divmod, "math.ceil": b_ceil, "len": b_len,
+    "np.asarray": b_asarray, "np.array": b_asarray, "np.fromiter": b_asarray, "np.sum": b_np1("sum"),
+    "np.mean": b_np1("mean"), "np.square": b_np1("square"), "np.dot": lambda I, ctx, a, b: vec_method(I, ctx, a, "dot", (b,), {}),
+    "np.var": b_np1("var"), "np.std": b_np1("std"), "sum": lambda I, ctx, v, start=0: seq_sum(I, ctx, list(v), start),
     "range": b_range, "zip": lambda I, ctx, *a: list(zip(*a)), "enumerate": lambda I, ctx, a: list(enumerate(a)), "tuple": lambda I, ctx, v=(): tuple(v), "list": lambda I, ctx, v=(): list(v),
 }
